@@ -10,7 +10,9 @@ key exchange).  It subclasses translator/pylite.py (unchanged) and adds, fail-cl
   except E: <block>              (exactly this shape)
   return None / return bytes  -> None / Some _ when the function returns a None-able bytearray
   the caching idiom           `if not hasattr(self,'_c') or not self._c: self._c = E`
-                              -> let self__c := E   (assumes the cache is coherent with the key)
+                              -> the value found on the object is a parameter self__c : option bytes
+                                 (None = attribute missing); self__c <- if opt_falsy self__c then E else it.
+                                 Nothing is assumed about the cached value: the theorems state the invariant
   while c: body               -> while_fuel FUEL (fuel expression given by the unit; OutOfFuel explicit)
   it = iter(x); for a, b in zip(it, it)   -> fold over pairs_of x
   it = enumerate(x); _, v = next(it)      -> py_next (StopIteration explicit)
@@ -26,6 +28,11 @@ key exchange).  It subclasses translator/pylite.py (unchanged) and adds, fail-cl
                               state-passing model a model of the shared object (the guarded region is atomic)
   with self.<lock>: body     -> body (inlined; see the obligation above)
   not x for an int           -> x =? 0
+  self.h(args) for an undeclared  the helper's body is INLINED at the call site (parameters let-bound, result type
+    method h of the same class    inferred from its return): extracting part of a translated method into a helper
+    (also @staticmethod)          (or merging it back) leaves the generated text equal up to let/bind structure
+  a, b = <pair-valued call>  -> let '(a, b) := ...
+  a or b / a and b with a fallible b -> b is evaluated only when reached (if a then Ok true else ...)
   a <= b <= c (chained)      -> (a <= b) && (b <= c)   (middle operands must be infallible)
   < <= > >= on pairs of ints -> pairZ_ltb / pairZ_leb (lexicographic, Base/C11_Lib.v)
   external helpers            numBits numBytes bytesToNumber (pure, Base/C11_Lib.v),
@@ -72,6 +79,12 @@ def flat(d):
 
 
 class FnX(FnTranslator):
+    prefix = ''
+
+    def fresh(self):
+        self.tmp += 1
+        return '%st%d_' % (self.prefix, self.tmp)
+
     # ------------------------------------------------------------------ exprs
     def eqb(self, ty):
         if ty == 'str':
@@ -106,6 +119,21 @@ class FnX(FnTranslator):
             f = self.field(e)
             if f is not None:
                 return f
+        if isinstance(e, ast.BoolOp):
+            ts = [self.expr(x, env) for x in e.values]
+            if any(t.ty != 'bool' for t in ts):
+                raise Refuse('and/or on non-bool (line %d)' % e.lineno)
+            if any(t.binds for t in ts[1:]):
+                # short-circuit with fallible later operands: they are evaluated only when reached
+                is_or = isinstance(e.op, ast.Or)
+                comp = self.wrap(ts[-1].binds, 'Ok %s' % ts[-1].code, True)
+                for t in reversed(ts[1:-1]):
+                    body = ('if %s then Ok true else (\n%s\n)' if is_or else 'if %s then (\n%s\n) else Ok false') % (t.code, comp)
+                    comp = self.wrap(t.binds, body, True)
+                first = ('if %s then Ok true else (\n%s\n)' if is_or else 'if %s then (\n%s\n) else Ok false') % (ts[0].code, comp)
+                self.fallible = True
+                tmp = self.fresh()
+                return Term(tmp, 'bool', ts[0].binds + [(tmp, first)])
         if isinstance(e, ast.Compare) and len(e.ops) > 1:
             # a op1 b op2 c  ==  (a op1 b) and (b op2 c); the middle operands are evaluated once in
             # Python: accepted only when they are infallible (no binds), so evaluating twice is the same
@@ -177,6 +205,8 @@ class FnX(FnTranslator):
                     raise Refuse('method %s called with %s' % (m, [a.ty for a in args]))
                 if m not in self.unit.done:
                     raise Refuse('method %s used before its translation' % m)
+                if self.unit.done[m][2]:
+                    raise Refuse('call of method %s that reads a cache attribute' % m)
                 pre = self.unit.done[m]      # (self-field list, oracle list)
                 for fld in pre[0]:
                     self.used_fields.add(fld)
@@ -190,6 +220,8 @@ class FnX(FnTranslator):
                     t = self.fresh()
                     return Term(t, sig['ret'], binds + [(t, code[1:-1] if allargs else code)])
                 return Term(code, sig['ret'], binds)
+            if d.startswith('self.') and d.count('.') == 1 and d[5:] in self.unit.class_methods:
+                return self.inline_helper(d[5:], e, env)
             raise Refuse('call of %s (line %d)' % (d, e.lineno))
         if isinstance(f, ast.Name):
             name = f.id
@@ -250,6 +282,39 @@ class FnX(FnTranslator):
                     return Term('(zlen %s)' % a.code, 'Z', a.binds)
                 raise Refuse('len of %s' % (a.ty,))
         return FnTranslator.call(self, e, env)
+
+    def inline_helper(self, m, e, env):
+        """self.m(args) for a method of the class that is not a declared unit member: inline its body"""
+        depth = getattr(self, 'inline_depth', 0)
+        if depth > 4:
+            raise Refuse('helper inlining too deep (%s)' % m)
+        fd = self.unit.class_methods[m]
+        static = any(isinstance(dn, ast.Name) and dn.id == 'staticmethod' for dn in fd.decorator_list)
+        if len(fd.decorator_list) > (1 if static else 0):
+            raise Refuse('decorated helper %s' % m)
+        if e.keywords or fd.args.vararg or fd.args.kwarg or fd.args.kwonlyargs or fd.args.defaults:
+            raise Refuse('helper %s: keyword/default arguments' % m)
+        pnames = [a.arg for a in fd.args.args]
+        if not static:
+            if not pnames or pnames[0] != 'self':
+                raise Refuse('helper %s without self' % m)
+            pnames = pnames[1:]
+        args = [self.expr(a, env) for a in e.args]
+        if len(args) != len(pnames):
+            raise Refuse('arity of helper %s' % m)
+        sub = FnX(self.unit, fd, {'params': [(p, a.ty) for p, a in zip(pnames, args)], 'ret': None})
+        sub.used_fields, sub.used_oracles = self.used_fields, self.used_oracles
+        sub.inline_depth = depth + 1
+        sub.tmp = self.tmp + 100 * (depth + 1)
+        sub.prefix = 'h%d' % (depth + 1)
+        henv = {p: a.ty for p, a in zip(pnames, args)}
+        body = sub.block(fd.body, henv, None, True)
+        if sub.sig['ret'] is None:
+            raise Refuse('helper %s never returns a value' % m)
+        lets = ''.join('let %s := %s in\n' % (p, a.code) for p, a in zip(pnames, args))
+        self.fallible = True
+        t = self.fresh()
+        return Term(t, sub.sig['ret'], sum((a.binds for a in args), []) + [(t, '(%s%s)' % (lets, body))])
 
     def genexp_bytes(self, g, env):
         if len(g.generators) != 1:
@@ -411,6 +476,24 @@ class FnX(FnTranslator):
             if t.ty != self.sig['ret']:
                 raise Refuse('return type %s, declared %s (line %d)' % (t.ty, self.sig['ret'], s.lineno))
             return self.wrap(t.binds, self.ret('(%s, %s)' % (t.code, self.state_tuple(env)), monadic), monadic)
+        # ---- return in an inlined helper: the result type is inferred from the first return
+        if isinstance(s, ast.Return) and self.sig.get('ret', 0) is None:
+            if s.value is None:
+                raise Refuse('bare return in helper')
+            self.sig['ret'] = self.expr(s.value, env).ty
+        # ---- a, b = <pair-valued expression>
+        if isinstance(s, ast.Assign) and len(s.targets) == 1 and isinstance(s.targets[0], ast.Tuple) \
+                and not (isinstance(s.value, ast.Call) and isinstance(s.value.func, ast.Name) and s.value.func.id == 'next'):
+            tg = s.targets[0]
+            t = self.expr(s.value, env)
+            if not (isinstance(t.ty, tuple) and t.ty[0] == 'tup' and len(t.ty) == 3 and len(tg.elts) == 2
+                    and all(isinstance(x, ast.Name) for x in tg.elts)):
+                raise Refuse('tuple assignment form (line %d)' % s.lineno)
+            self.need_monad(t.binds, monadic, s)
+            env2 = dict(env)
+            for nm, ty in zip([x.id for x in tg.elts], t.ty[1:]):
+                env2[nm] = ty
+            return self.wrap(t.binds, "let '(%s, %s) := %s in\n%s" % (tg.elts[0].id, tg.elts[1].id, t.code, cont(env2)), monadic)
         # ---- raise
         if isinstance(s, ast.Raise):
             if rest:
@@ -454,10 +537,15 @@ class FnX(FnTranslator):
             if 'self.' + attr not in self.unit.caches:
                 raise Refuse('undeclared cache attribute %s' % attr)
             t = self.expr(val, env)
-            self.need_monad(t.binds, monadic, s)
+            if t.ty != 'bytes' or env.get('self_' + attr) != OPT:
+                raise Refuse('cache %s: only None-able bytearray caches (line %d)' % (attr, s.lineno))
+            self.fallible = True
+            self.need_monad([1], monadic, s)
             env2 = dict(env)
-            env2['self_' + attr] = t.ty
-            return self.wrap(t.binds, 'let self_%s := %s in\n%s' % (attr, t.code, cont(env2)), monadic)
+            env2['self_' + attr] = 'bytes'
+            fill = self.wrap(t.binds, 'Ok %s' % t.code, True)
+            return ('self_%s <- (if (opt_falsy self_%s) then (\n%s\n) else (\nopt_get self_%s\n)) ;;\n%s'
+                    % (attr, attr, fill, attr, cont(env2)))
         # ---- return with None-able result
         if isinstance(s, ast.Return) and self.sig['ret'] == OPT:
             if rest:
@@ -608,6 +696,8 @@ class UnitX(object):
                 if n.name in fdefs:
                     raise Refuse('method %s defined twice' % n.name)
                 fdefs[n.name] = n
+        self.class_methods = {n: f_ for n, f_ in fdefs.items()
+                              if n not in self.sigs and ('self.' + n) not in self.oracles}
         defs = []
         for name, sig in self.sigs.items():
             if name not in fdefs:
@@ -632,6 +722,9 @@ class UnitX(object):
                             params.append((flat(fld), fty))
                 else:
                     params.append((p, t))
+            used_caches = [c for c in sorted(self.caches)
+                           if any(dotted(x) == c for x in ast.walk(fd) if isinstance(x, ast.Attribute))]
+            params = [(flat(c), OPT) for c in used_caches] + params
             uses_state = bool(self.state) and sig.get('stateful', True)
             if uses_state:
                 params = [(flat(f_), t_) for f_, t_ in self.state.items()] + params
@@ -641,7 +734,7 @@ class UnitX(object):
             self.fallible[name] = monadic
             flds = [f_ for f_ in self.fields if f_ in ft.used_fields and f_.startswith('self.')]
             orcs = [o for o in self.oracles if o in ft.used_oracles]
-            self.done[name] = (flds, orcs)
+            self.done[name] = (flds, orcs, used_caches)
             plist = [(flat(f_), self.fields[f_]) for f_ in flds] + params
             ptxt = ' '.join('(%s : %s)' % (p, TYX[t]) for p, t in plist)
             rty = TYX[sig['ret']]
